@@ -58,6 +58,16 @@ HISTORY = {
     "C11-r5I7-1": "round 5. first run: missed; around / round now also get integer coefficients with decimals -1 / -2",
     "C08-r5I7-2": "round 5. first run: missed by C08 and C11 (a newly registered ufunc counted as 'registered without generator'); the negative shard now audits the two registries: every registered numpy callable must be served by the implementation of that very function (or a numpy alias / the documented polynomial-division design)",
     "C12-r5I5-1": "round 5. a join (hstack) takes the first operand's dtype where neither operand can hold the other: not arithmetic, so outside C12's clauses; caught by C09 (names and coefficient dtype of joins)",
+    "C14-r6-1": "round 6 ('hard mode': the change must survive the agent's own naive random tester). first run: missed; the history alphabet gained 'enterE' (global_options() without any option, a pure scope)",
+    "C14-r6-2": "round 6. first run: missed; the alphabet gained 'enterPB' (the manager object is created, set_options is called, then the block is entered: 'previous' is the state at entry)",
+    "C06-r6-2": "round 6. first run: missed by C06 and C15; derivative is now also called with 9-14 designators at once on monomials of degree 12-18 (the product of the exponents brought down passes 2**32)",
+    "C20-r6-1": "round 6. a designator taken from variable(3) against an operand over (q1, q2): caught by C06 (designators in every form); C20 and C04 do not differentiate with polynomial designators",
+    "C20-r6-2": "round 6. first run: caught by C06 and C04, missed by C20; C20's random operations now use name sets such as (q2, q10), (q9, q11) and second operands over another set of indeterminates",
+    "C07-r6-2": "round 6. first run: caught by C04, missed by C07; compared operands now also mention different sets of indeterminates (q2 vs q10)",
+    "C04-r6-1": "round 6. first run: missed by C04 and C01; operands are now also spelled as tuples, and a single operand may be a list / tuple of polynomials and numbers",
+    "C03-r6-1": "round 6. an argument (the caller's exponent array) is overwritten: caught by C17; C03 now also rebuilds twice from the same attribute objects and catches it too",
+    "C03-r6-2": "round 6. options not restored when an exception crosses the block: caught by C14 (the property about exit paths); C03 never lets an exception cross an option block",
+    "C15-r6-2": "round 6. first run: missed - the seed exposed a dead monitor: C15's extra operation 'divmod' had been shadowed by the later catalogue entry of the same name (numeric divmod, which refuses polynomials, so every case was skipped as 'fails under defaults too'). Renamed to poly_divmod (with / and %), weighted x4, an assertion forbids such shadowing and every extra operation is a required counter now",
     "C06-2": "first run: caught by C06, missed by C15; C15's derivative entry now differentiates with respect to several variables",
 }
 REJECTED = [
